@@ -241,6 +241,11 @@ pub fn scenario(g: &mut G, ctx: &RunCtx) -> RunReport {
         }
         _ => bom_family,
     };
+    let payload_len_for_hdr = plan.payload.len();
+    let accept_charset_hdr = payload_len_for_hdr % 3 == 1;
+    if accept_charset_hdr {
+        g.probe("request-carries-accept-charset");
+    }
     let run_api = |api: Api, _default_cs: Option<&'static Encoding>| {
         move || -> Result<String, String> {
             let mut session = attohttpc::Session::new();
@@ -250,6 +255,11 @@ pub fn scenario(g: &mut G, ctx: &RunCtx) -> RunReport {
             let mut rb = session.get(format!("http://{}/t", bodyx::HOST_IP));
             if let Some(v) = request_cs {
                 rb = rb.default_charset(v);
+            }
+            // (no draw) what the request says it would like to receive decides nothing about how the response
+            // is read: that is the response's label, then the configured default, then the fallback
+            if accept_charset_hdr {
+                rb = rb.header("Accept-Charset", ["utf-8", "iso-8859-2", "shift_jis", "utf-16le", "koi8-r"][payload_len_for_hdr % 5]).header("Accept-Language", "fr");
             }
             let resp = rb.send().map_err(|e| format!("send:{}", err_kind(&e)))?;
             let read_all = |mut r: Box<dyn Read>, sizes: &[usize]| -> Result<String, String> {
